@@ -635,6 +635,11 @@ def gen_wire(rng):
                 rd += blob(rng, 1, 6)      # RDLENGTH larger than what the type needs: parser skips the rest
             msg += hdr + len(rd).to_bytes(2, "big") + rd
             counts[sect] += 1
+        if sect == 0 and rng.random() < 0.02:
+            # an OPT RR outside the additional section carrying extended-rcode bits (input class of F34-C03)
+            ttl = (rng.choice([1, 1, 0x17]) << 24) | rng.choice([0, 0x8000])
+            msg += b"\0" + (41).to_bytes(2, "big") + (1232).to_bytes(2, "big") + ttl.to_bytes(4, "big") + b"\0\0"
+            counts[0] += 1
         if sect == 2 and rng.random() < 0.4:
             rd = b""
             for i in rng.sample(range(0, 16), rng.randint(0, 3)):
